@@ -29,6 +29,30 @@ theorem C16_layouts_agree (L₁ L₂ : Layout) (h₁ : L₁.ok = true) (h₂ : L
     (he : L₁.erase = L₂.erase) : commands L₁.render = commands L₂.render := by
   rw [C16_layout L₁ h₁, C16_layout L₂ h₂, he]
 
+/-- **the newline at the very end of the file is optional**: the text without it dispatches the same
+commands (for the repaired and for the as-found `tokenize` alike) -/
+theorem C16_final_newline_optional (fix : Bool) (L : Layout) (h : L.ok = true) :
+    commandsG fix L.renderNoEol = commandsG fix L.render := by
+  unfold commandsG Layout.renderNoEol Layout.render
+  rcases layout_lines_last h with e | ⟨ls, x, e, hx, hn⟩
+  · rw [e]; rfl
+  · have hall := layout_lines_isLine h
+    rw [e] at hall ⊢
+    have hls : ∀ l ∈ ls, IsLine l := fun l hl => hall l (List.mem_append_left _ hl)
+    have e1 : (ls ++ [x ++ ['\n']]).flatten.dropLast = ls.flatten ++ x := by
+      rw [List.flatten_append]
+      simp only [List.flatten_cons, List.flatten_nil, List.append_nil]
+      rw [← List.append_assoc, List.dropLast_concat]
+    rw [e1, fileLines_noeol hls hn, fileLines_flatten hall]
+    exact (mainLoop_eol fix hx hn _ [] _ _ (Nat.le_refl _) (Or.inr ⟨ls, rfl, rfl⟩)).symm
+
+/-- every layout, with or without the final newline -/
+theorem C16_layout_noeol (L : Layout) (h : L.ok = true) : commands L.renderNoEol = L.erase := by
+  have := C16_final_newline_optional true L h
+  unfold commands
+  rw [this]
+  exact C16_layout L h
+
 /-- The same statement for `tokenize` as found in the repository. -/
 def C16_full_asfound : Prop := ∀ L : Layout, L.ok = true → commandsOld L.render = L.erase
 
